@@ -193,6 +193,12 @@ static void emit_path_facts(const World &w, og::PathGeometric &path, const ob::G
     for (auto *s : st)
     {
         double d = 0; bool g = goal ? goal->isSatisfied(s, &d) : false;
+        // the goal region evaluated independently of GoalRegion::isSatisfied / GoalState::distanceGoal
+        if (auto *gs = dynamic_cast<ob::GoalState *>(goal.get()))
+        {
+            double d2 = w.space->distance(s, gs->getState()); bool g2 = d2 < gs->getThreshold();   // "distance to goal is less than the threshold" (GoalRegion.h)
+            if (g2 != g || d2 != d) out << "GOALMISMATCH " << id_of(s) << " library " << (g ? 1 : 0) << " " << d << " own " << (g2 ? 1 : 0) << " " << d2 << " threshold " << gs->getThreshold() << "\n";
+        }
         out << "P " << id_of(s) << " " << (w.space->satisfiesBounds(s) ? 1 : 0) << " " << (w.chk->isValid(s) ? 1 : 0) << " " << (g ? 1 : 0) << " " << (long long)std::llround(std::min(d, 1e9) * 1e9) << " # " << state_str(w, s) << "\n";
     }
     for (std::size_t i = 0; i + 1 < st.size(); ++i)
